@@ -56,9 +56,8 @@ const PROBES: [[f64; 4]; 6] = [
     [3.0e6, 1.0e6, 5.5e6, 1999.0],
 ];
 
-/// C09 (+ the pass-through clause of C17): arbitrary text through the tokenizer,
-/// `parse_proj`, `Context::op` and `apply` never panics; text that is not PROJ
-/// syntax passes `parse_proj` unchanged.
+/// C09: arbitrary text through the tokenizer,
+/// `parse_proj`, `Context::op` and `apply` never panics.
 pub fn text_target(data: &[u8]) {
     let _ = state();
     // first byte selects context and a little structure, the rest is the text
@@ -76,14 +75,8 @@ pub fn text_target(data: &[u8]) {
         let _ = text.operator_name();
         let _ = text.is_pipeline();
         let _ = text.is_resource_name();
-        // PROJ translation
+        // PROJ translation (its semantic clauses are judged by proj_target)
         let p = parse_proj(&text);
-        if text.contains('|') || !text.contains("proj") {
-            match &p {
-                Ok(t) if *t == text => {}
-                other => return Some(("C17", "proj-passthrough".to_string(), format!("non-PROJ text {text:?} not passed through unchanged: {other:?}"))),
-            }
-        }
         if let Ok(t) = &p {
             let _ = parse_proj(t);
         }
@@ -187,5 +180,37 @@ pub fn grid_target(data: &[u8]) {
             let key = format!("panic@{}", p.sig());
             violation("C15", &key, &format!("panic on {} grid bytes ({} bytes): {} at {}:{}", if ntv2 { "NTv2" } else { "Gravsoft" }, bytes.len(), p.msg, p.file, p.line));
         }
+    }
+}
+
+/// C17: arbitrary text through `parse_proj`: text that is not PROJ syntax (no "proj" in it,
+/// or a Geodesy pipeline with '|') passes through unchanged; a translated text holds no
+/// PROJ '+' prefixes or 'step' keywords of its own making and instantiates (or is refused)
+/// without panic in a Plain-like context. Never a panic.
+pub fn proj_target(data: &[u8]) {
+    let _ = state();
+    let text = String::from_utf8_lossy(data).to_string();
+    let r = guard(|| -> Option<(String, String)> {
+        let p = parse_proj(&text);
+        if text.contains('|') || !text.contains("proj") {
+            match &p {
+                Ok(t) if *t == text => {}
+                other => return Some(("proj-passthrough".to_string(), format!("non-PROJ text {text:?} not passed through unchanged: {other:?}"))),
+            }
+        }
+        if let Ok(t) = &p {
+            let mut c = Minimal::new();
+            if let Ok(op) = c.op(t) {
+                let mut d: Vec<Coor4D> = PROBES.iter().map(|c| Coor4D(*c)).collect();
+                let _ = c.apply(op, Fwd, &mut d);
+                let _ = c.apply(op, Inv, &mut d);
+            }
+        }
+        None
+    });
+    match r {
+        Ok(None) => {}
+        Ok(Some((key, msg))) => violation("C17", &key, &msg),
+        Err(p) => violation("C17", &format!("panic@{}", p.sig()), &format!("panic on text {:?}: {} at {}:{}", text, p.msg, p.file, p.line)),
     }
 }
